@@ -194,6 +194,8 @@ enum EOp {
     Exit { slot: u8 },
     Record { slot: u8, field: u8, v: Vals },
     Drop { slot: u8 },
+    /// like Drop, but guard and handle are dropped by a panic (caught) that unwinds over them
+    DropUnwinding { slot: u8 },
     /// a Dispatch is created (and kept) but never installed
     DispatchOnly,
     Install(Install),
@@ -669,6 +671,21 @@ fn run_emit(case: &EmitCase) -> Outcome {
                     kinds.insert("emit:span_close");
                 }
             }
+            EOp::DropUnwinding { slot } => {
+                let k = steer(&slots, *slot, |s| s.is_some());
+                if let Some((st, info)) = slots[k].take() {
+                    if let SlotState::Entered(_) = st {
+                        exp.push(life(&info, "tracing::span::active"));
+                    }
+                    exp.push(life(&info, "tracing::span"));
+                    let r = std::panic::catch_unwind(std::panic::AssertUnwindSafe(move || {
+                        let _dropped_by_the_unwind = st;
+                        panic!("scripted panic over a span");
+                    }));
+                    assert!(r.is_err());
+                    kinds.insert("emit:span_closed_by_unwinding");
+                }
+            }
             EOp::DispatchOnly => {
                 kept.push(Dispatch::new(Quiet));
                 dispatch_only = true;
@@ -884,6 +901,7 @@ impl Property for C18 {
             3 => slot().prop_map(|slot| EOp::Exit { slot }),
             2 => (slot(), 0u8..4, vals()).prop_map(|(slot, field, v)| EOp::Record { slot, field, v }),
             3 => slot().prop_map(|slot| EOp::Drop { slot }),
+            1 => slot().prop_map(|slot| EOp::DropUnwinding { slot }),
             1 => Just(EOp::DispatchOnly),
         ];
         let nops = tier.pick(14usize, 24usize);
